@@ -184,6 +184,32 @@ def run(tier):
             if tag == "rep" and reps > 1:
                 # with repeated regularisation the bands are compared with the unregularised run only for widening
                 pass
+    # ---- bilateral: the spatial weight depends on the distance to the filtered pixel only (even and odd window widths) ------------
+    for sg in (0.9, 1.0, 1.2, 5.0 / 3, 2.0, 2.5):
+        rows = cols = 13
+        r0 = c0 = 6
+        pairs = [((0, 1), (0, -1)), ((1, 0), (-1, 0)), ((1, 1), (-1, -1)), ((1, -1), (-1, 1)), ((0, 1), (1, 0)), ((0, -1), (-1, 0))]
+        width = min(rows, cols, int(3 * sg + 1))
+        if width < 3:
+            continue
+        try:
+            def probe(dr, dc):
+                d = np.zeros((rows, cols), dtype=np.float32)
+                d[r0 + dr, c0 + dc] = 1.0
+                ds = build.make_disp(d, vm=np.zeros((rows, cols), dtype=int))
+                pfilter.AbstractFilter(cfg={"filter_method": "bilateral", "sigma_space": float(sg), "sigma_color": 2.0}, image_shape=(rows, cols),
+                                       step=1).filter_disparity(ds)
+                return float(ds["disparity_map"].data[r0, c0])
+            a = [int(round(1e6 * probe(*p))) for p, _ in pairs]
+            b = [int(round(1e6 * probe(*q))) for _, q in pairs]
+        except Exception as exc:  # pylint: disable=broad-except
+            chk.violation("total", dict(method="bilateral", exception=type(exc).__name__, smaller_than_filter=False), {"sigma_space": sg, "exception": repr(exc)[:300]},
+                          f"bilateral raised on a 13x13 map with sigma_space {sg}")
+            continue
+        cid = f"sym{int(sg * 100)}"
+        cases.append({"id": cid, "step": "bilateral_symmetry", "a": a, "b": b})
+        meta[cid] = {"method": "bilateral", "sigma_space": sg, "window_width": width, "rows": rows, "cols": cols, "probe_pairs": [[list(p), list(q)] for p, q in pairs]}
+        chk.count(("bilsym", sg))
     # ---- a fully invalid, grid-aligned 100x100 block followed by valid blocks (block bookkeeping) ----------------------------------
     for (rows, cols, fsz) in ([(106, 160, 3)] if tier == "quick" else [(106, 160, 3), (108, 230, 5), (210, 106, 3), (150, 250, 3)]):
         try:
